@@ -13,6 +13,7 @@ import (
 	"os"
 	"runtime"
 	"runtime/debug"
+	"sync"
 	"testing"
 
 	"github.com/ontio/ontology/common"
@@ -263,6 +264,215 @@ func TestVerifCrossVMCases(t *testing.T) {
 			o.Res = "panic:" + p
 		}
 		out.Emit(o)
+	}
+}
+
+// ---------------------------------------------------------------------------------------------------
+// Histories of codec calls with RETAINED results (HistSpec of spec/CrossVM.tla).  A path is a behaviour
+// of the specification: EncodeValue / EncodeList / EncodeBigInt / EncodePar (two goroutines) append the
+// slice the real code returned -- the slice itself, never a copy -- to `real`; Decode / Compare read a
+// retained slice; Release drops one.  After EVERY step every retained slice is compared with the
+// specification's state (kept[i].bs) and decoded again (kept[i].v).
+
+type cvHeld struct {
+	V   cvVal `json:"v"`
+	Bs  []int `json:"bs"`
+	Buf int   `json:"buf"`
+}
+
+type cvHState struct {
+	Kept []cvHeld `json:"kept"`
+}
+
+type cvHAct struct {
+	Name string `json:"name"`
+	Val  cvVal  `json:"val"`
+	Val2 cvVal  `json:"val2"`
+	Out  []int  `json:"out"`
+	Out2 []int  `json:"out2"`
+	I    int    `json:"i"`
+	J    int    `json:"j"`
+	Res  string `json:"res"`
+	Back cvVal  `json:"back"`
+	Used int    `json:"used"`
+	Eq   bool   `json:"eq"`
+}
+
+type cvHStep struct {
+	Act cvHAct   `json:"act"`
+	To  cvHState `json:"to"`
+}
+
+type cvHPath struct {
+	Init  cvHState  `json:"init"`
+	Steps []cvHStep `json:"steps"`
+}
+
+type cvHBad struct {
+	Step   int    `json:"step"` // 0-based index of the step after which it was observed
+	Act    string `json:"act"`  // that step's action
+	What   string `json:"what"` // class of the deviation
+	Api    string `json:"api"`  // the call that returned the encoding concerned
+	Idx    int    `json:"idx"`  // its position among the retained encodings (1-based), 0 = the call itself
+	Born   int    `json:"born"` // the step that returned it
+	Detail string `json:"detail"`
+}
+
+type cvHObs struct {
+	I     int      `json:"i"`
+	Res   string   `json:"res"`
+	Steps int      `json:"steps"`
+	Bad   []cvHBad `json:"bad,omitempty"`
+}
+
+type cvRetained struct {
+	api  string
+	born int
+	enc  []byte // what the codec returned; deliberately NOT copied
+	snap []byte // private copy taken at that moment
+}
+
+// one call of the codec that hands an encoding to the caller
+func cvHEncode(api string, v cvVal) ([]byte, error) {
+	gv := cvToGo(v)
+	switch api {
+	case "EncodeValue":
+		return EncodeValue(gv)
+	case "EncodeList":
+		sink := common.NewZeroCopySink(nil)
+		err := EncodeList(sink, gv.([]interface{}))
+		return sink.Bytes(), err
+	case "EncodeBigInt":
+		sink := common.NewZeroCopySink(nil)
+		err := EncodeBigInt(sink, gv.(*big.Int))
+		return sink.Bytes(), err
+	}
+	panic("unknown encoder " + api)
+}
+
+func cvHRun(pi int, path cvHPath) (o cvHObs) {
+	o = cvHObs{I: pi, Res: "ok"}
+	if len(path.Init.Kept) != 0 {
+		o.Res = "harness:initial state holds encodings"
+		return
+	}
+	var real []cvRetained
+	for si, st := range path.Steps {
+		a := st.Act
+		bad := func(what, api string, idx, born int, detail string) {
+			o.Bad = append(o.Bad, cvHBad{Step: si, Act: a.Name, What: what, Api: api, Idx: idx, Born: born, Detail: detail})
+		}
+		keep := func(api string, enc []byte, err error, spec []int) {
+			if err != nil {
+				bad("encode-error", api, 0, si, err.Error())
+				enc = nil
+			} else if !bytes.Equal(enc, cvBytes(spec)) {
+				bad("wrong-encoding", api, 0, si, fmt.Sprintf("returned %x, specification %x", enc, cvBytes(spec)))
+			}
+			real = append(real, cvRetained{api: api, born: si, enc: enc, snap: append([]byte(nil), enc...)})
+		}
+		p := cvCatch(func() {
+			switch a.Name {
+			case "EncodeValue", "EncodeList", "EncodeBigInt":
+				enc, err := cvHEncode(a.Name, a.Val)
+				keep(a.Name, enc, err, a.Out)
+			case "EncodePar":
+				// two goroutines, released together; the results are looked at only after both have returned
+				vals := [2]interface{}{cvToGo(a.Val), cvToGo(a.Val2)}
+				var encs [2][]byte
+				var errs [2]error
+				var pans [2]string
+				var wg sync.WaitGroup
+				start := make(chan struct{})
+				for g := 0; g < 2; g++ {
+					wg.Add(1)
+					go func(g int) {
+						defer wg.Done()
+						<-start
+						pans[g] = cvCatch(func() { encs[g], errs[g] = EncodeValue(vals[g]) })
+					}(g)
+				}
+				close(start)
+				wg.Wait()
+				for g := 0; g < 2; g++ {
+					if pans[g] != "" {
+						panic(pans[g])
+					}
+				}
+				keep("EncodeValue", encs[0], errs[0], a.Out)
+				keep("EncodeValue", encs[1], errs[1], a.Out2)
+			case "Decode":
+				r := real[a.I-1]
+				src := common.NewZeroCopySource(r.enc)
+				back, err := DecodeValue(src)
+				if cvErrName(err) != a.Res {
+					bad("retained-encoding-decodes-differently", r.api, a.I, r.born, fmt.Sprintf("DecodeValue: %s, specification %s; bytes now %x, when returned %x", cvErrName(err), a.Res, r.enc, r.snap))
+				} else if err == nil && (cvCanon(cvFromGo(back)) != cvCanon(a.Back) || int(src.Pos()) != a.Used) {
+					bad("retained-encoding-decodes-differently", r.api, a.I, r.born, fmt.Sprintf("DecodeValue: %s (%d bytes), specification %s (%d bytes); bytes now %x, when returned %x",
+						cvCanon(cvFromGo(back)), src.Pos(), cvCanon(a.Back), a.Used, r.enc, r.snap))
+				}
+			case "Compare":
+				ri, rj := real[a.I-1], real[a.J-1]
+				if eq := bytes.Equal(ri.enc, rj.enc); eq != a.Eq {
+					bad("retained-encodings-compare-differently", ri.api, a.I, ri.born, fmt.Sprintf("encodings %d and %d equal: %v, specification %v; %x (when returned %x) / %x (when returned %x)",
+						a.I, a.J, eq, a.Eq, ri.enc, ri.snap, rj.enc, rj.snap))
+				}
+			case "Release":
+				real = append(real[:a.I-1:a.I-1], real[a.I:]...)
+			default:
+				panic("unknown history action " + a.Name)
+			}
+		})
+		if p != "" {
+			o.Res = "panic:" + p
+			o.Steps = si
+			return
+		}
+		// the state after the step: every retained encoding against the specification's state
+		if len(real) != len(st.To.Kept) {
+			o.Res = fmt.Sprintf("harness:%d retained encodings, specification %d", len(real), len(st.To.Kept))
+			return
+		}
+		for j, r := range real {
+			want := st.To.Kept[j]
+			if !bytes.Equal(r.enc, cvBytes(want.Bs)) {
+				if bytes.Equal(r.snap, cvBytes(want.Bs)) {
+					bad("retained-encoding-changed", r.api, j+1, r.born, fmt.Sprintf("when returned %x, now %x", r.snap, r.enc))
+				} else if r.born != si {
+					bad("retained-encoding-differs-from-specification", r.api, j+1, r.born, fmt.Sprintf("now %x, when returned %x, specification %x", r.enc, r.snap, cvBytes(want.Bs)))
+				}
+			}
+			var back interface{}
+			var err error
+			what := "retained-encoding-decodes-differently"
+			if r.born == si {
+				what = "fresh-encoding-decodes-differently"
+			}
+			if pp := cvCatch(func() { back, err = DecodeValue(common.NewZeroCopySource(r.enc)) }); pp != "" {
+				bad(what, r.api, j+1, r.born, "DecodeValue panics: "+pp)
+			} else if err != nil {
+				bad(what, r.api, j+1, r.born, fmt.Sprintf("DecodeValue: %s; bytes now %x, when returned %x", cvErrName(err), r.enc, r.snap))
+			} else if cvCanon(cvFromGo(back)) != cvCanon(want.V) {
+				bad(what, r.api, j+1, r.born, fmt.Sprintf("DecodeValue: %s, encoded value %s; bytes now %x, when returned %x", cvCanon(cvFromGo(back)), cvCanon(want.V), r.enc, r.snap))
+			}
+		}
+		o.Steps = si + 1
+		if len(o.Bad) > 0 {
+			return // the real state has left the specification's behaviour
+		}
+	}
+	return
+}
+
+func TestVerifCrossVMHist(t *testing.T) {
+	var in struct {
+		Paths []cvHPath `json:"paths"`
+	}
+	vhIn(&in)
+	out := vhOpenOut()
+	defer out.Close()
+	for i, p := range in.Paths {
+		out.Emit(cvHRun(i, p))
 	}
 }
 
